@@ -214,6 +214,15 @@ def getT : FTy → FVal → Path → Option (FTy × FVal)
         | none => none
       | none => none
 
+/-- keys of the map (or `any` hole expanded to a map) found at path `c`, read like `getT` -/
+def keysAt (t : FTy) (d : FVal) (c : Path) : Option (List String) :=
+  match getT t d c with
+  | some (ct, cv) =>
+    match mapOf ct cv with
+    | some (_, kvs) => some (kvs.toList.map (·.1))
+    | none => none
+  | none => none
+
 /-- static type of the slot at a target path -/
 def slotTy : FTy → Path → Option FTy
   | t, [] => some t
